@@ -69,6 +69,8 @@ def make_scratch(root, patches=("anyhow", "hmac", "aes-gcm"), with_contracts=Tru
     if with_contracts:
         by_file = {}
         for f, anchor, attrs in parse_contracts(os.path.join(VERIF, "kani", "contracts.txt")):
+            if only_files is not None and f not in only_files:
+                continue
             by_file.setdefault(f, []).append((anchor, attrs))
         for f, items in by_file.items():
             p = os.path.join(dst, f)
